@@ -33,6 +33,10 @@ type immWorld struct {
 	// statement array shared with `other`
 	inv2         *invocation.Token
 	leaf2, other *delegation.Token
+	// a third invocation whose chain is refused in the time step: the leaf is good for a day, the root lapsed a minute ago
+	// (two delegations with the same kind of bound, the later one tighter); both are shared and part of the snapshot
+	inv3         *invocation.Token
+	leaf3, root3 *delegation.Token
 }
 
 var immKeyNames = []string{"zeta", "alpha", "mid", "beta", "omega"}
@@ -150,6 +154,25 @@ func newImmWorld(w *world, order []int, decoded bool) (*immWorld, error) {
 	if iw.inv2, err = invocation.New(iw.aud.id, iw.iss.id, command.MustParse("/x/y"), []cid.Cid{lid, rid}, iopts...); err != nil {
 		return nil, err
 	}
+	if iw.root3, err = delegation.Root(iw.iss.id, mid.id, command.MustParse("/x"), policy.Policy{}, delegation.WithExpirationIn(-time.Minute), delegation.WithNotBeforeIn(-48*time.Hour)); err != nil {
+		return nil, err
+	}
+	if iw.leaf3, err = delegation.New(mid.id, iw.aud.id, command.MustParse("/x"), policy.Policy{}, delegation.WithSubject(iw.iss.id), delegation.WithExpirationIn(24*time.Hour),
+		delegation.WithNotBeforeIn(-time.Hour)); err != nil {
+		return nil, err
+	}
+	_, r3, err := iw.root3.ToSealed(iw.iss.priv)
+	if err != nil {
+		return nil, err
+	}
+	_, l3, err := iw.leaf3.ToSealed(mid.priv)
+	if err != nil {
+		return nil, err
+	}
+	iw.loader[r3], iw.loader[l3] = iw.root3, iw.leaf3
+	if iw.inv3, err = invocation.New(iw.aud.id, iw.iss.id, command.MustParse("/x/y"), []cid.Cid{l3, r3}, iopts...); err != nil {
+		return nil, err
+	}
 	return iw, nil
 }
 
@@ -174,6 +197,15 @@ func (iw *immWorld) snapshot() string {
 		}
 	}
 	s = append(s, "shared-policies", iw.leaf2.Policy().String(), len(iw.leaf2.Policy()), iw.other.Policy().String(), len(iw.other.Policy()))
+	for _, d := range []*delegation.Token{iw.leaf3, iw.root3} {
+		for _, t := range []*time.Time{d.Expiration(), d.NotBefore()} {
+			if t == nil {
+				s = append(s, "t3", nil)
+			} else {
+				s = append(s, "t3", t.UnixNano())
+			}
+		}
+	}
 	_, f1, _ := fieldsOf(iw.inv)
 	_, f2, _ := fieldsOf(iw.dlg)
 	for _, f := range []map[string]ipld.Node{f1, f2} {
@@ -446,6 +478,20 @@ var immOps = []immOp{
 	}},
 	{"inv2.ExecutionAllowed (two links, leaf policy with spare capacity)", func(iw *immWorld) string {
 		return fmt.Sprint(iw.inv2.ExecutionAllowed(iw.loader), iw.inv2.ExecutionAllowedWithArgsHook(iw.loader, func(a args.ReadOnly) (*args.Args, error) { return a.WriteableClone(), nil }))
+	}},
+	{"inv3.ExecutionAllowed (refused in the time step: the root lapsed, the leaf did not)", func(iw *immWorld) string {
+		return fmt.Sprint(stageOf(iw.inv3.ExecutionAllowed(iw.loader)), iw.leaf3.IsValidNow(), iw.root3.IsValidNow())
+	}},
+	{"hook that includes the arguments into a fresh set and adds to it", func(iw *immWorld) string {
+		hook := func(a args.ReadOnly) (*args.Args, error) {
+			fresh := args.New()
+			fresh.Include(a)
+			if err := fresh.Add("added-by-the-hook", 1); err != nil {
+				return nil, err
+			}
+			return fresh, nil
+		}
+		return fmt.Sprint(iw.inv.ExecutionAllowedWithArgsHook(iw.loader, hook), iw.inv.ExecutionAllowedWithArgsHook(iw.loader, hook))
 	}},
 	{"streaming seal into a failing writer, then a good one", func(iw *immWorld) string {
 		// a failed streaming seal / unseal must leave nothing behind: the next one reports the CID of its own bytes
